@@ -1,0 +1,1 @@
+//! Verification hooks (trackers group); see `mod.rs`.
